@@ -25,9 +25,12 @@ CLAIM = {
              "the parser returns is the image of a stratified tree and carries no negative literal as an un-negated operand). Hypotheses of "
              "the round trip: numbers satisfy wfNumber (the literal scanner reads their printed form back: C07), commodities consist of "
              "commodity characters, and the tree is plain (plainV); not_C08_parse_wfOnly proves that Unparse.wfVExpr alone is not enough "
-             "(`(-1)` printed from Paren(Value(-1)) is read as Paren(Negate(Value(1))), in the Rust as in the model). Not proved here: that the "
-             "fuel bound parseFuel suffices for inputs that are NOT printer output (the round trip proves it for printer output), and the "
-             "winnow combinators themselves are modelled, not verified. "
+             "(`(-1)` printed from Paren(Value(-1)) is read as Paren(Negate(Value(1))), in the Rust as in the model). C08_parse_iff: the condition "
+             "on the continuation (it must not extend the last token: no digit/comma/point after a bare number, no commodity character "
+             "after a commodity or after the blanks that follow a bare number; nothing after `)`) is necessary as well as sufficient. "
+             "The round trip is proved with the fuel the model always passes (parseFuel) and C08_parse_image for every fuel; that parseFuel "
+             "never runs out on arbitrary input is C06's theorem, not repeated here. The winnow combinators themselves are modelled "
+             "(separated_foldl1's reset-on-failed-operand included), not verified. "
              "Tie to the code: every expression text with up to 2 (quick) / 3 (thorough) binary operators over the leaves 0, 2, 3 A, 5 B "
              "(bare, parenthesised and negated operands), random trees to depth 6 with random spacing, and a malformed stream are run "
              "through the real parser and evaluator as posting amount, cost, lot price, balance assignment and Ledger::eval argument; "
@@ -44,10 +47,10 @@ THEOREMS = ["Okane.C08.C08_eval", "Okane.C08.C08_eval_mut", "Okane.C08.C08_typin
             "Okane.C08.checkMul_corr", "Okane.C08.checkDiv_corr",
             "Okane.C08.C08_parse", "Okane.C08.C08_parse_value", "Okane.C08.C08_parse_sum", "Okane.C08.C08_parse_tree",
             "Okane.C08.C08_parse_follow", "Okane.C08.C08_parse_prec", "Okane.C08.C08_parse_unambiguous",
-            "Okane.C08.C08_parse_image", "Okane.C08.not_C08_parse_wfOnly",
+            "Okane.C08.C08_parse_image", "Okane.C08.C08_parse_iff", "Okane.C08.not_C08_parse_wfOnly",
             "Okane.ExprParse.valueE_roundtrip", "Okane.ExprParse.addE_roundtrip", "Okane.ExprParse.parse_print",
             "Okane.ExprParse.parse_print_follow", "Okane.ExprParse.parse_print_prec", "Okane.ExprParse.text_injective",
-            "Okane.ExprParse.valueExpr_image"]
+            "Okane.ExprParse.valueExpr_image", "Okane.ExprParse.follow_necessary", "Okane.ExprParse.plainV_rescale"]
 
 POSITIONS = ["eval", "amount", "cost", "lot", "balance"]
 LEAVES = ["0", "2", "3 A", "5 B"]
